@@ -1,4 +1,5 @@
 import DateutilVerif.Properties.C04
+import DateutilVerif.Properties.TzGen   -- translator tie (wt-iso): obligations about the re-translated lookup functions
 #print axioms C04.roundtrip
 #print axioms C04.inj
 #print axioms C04.offset_in_force
@@ -16,3 +17,13 @@ import DateutilVerif.Properties.C04
 #print axioms C04.roundtrip_tzlocal
 #print axioms C04.tzlocal_window_north
 #print axioms C04.tzlocal_window_south
+-- translator tie (wt-iso): Gen.* (Generated/TzKernels.lean) = model, and `_gen` twins
+#print axioms C04.gen_eq_model_datetime_to_timestamp
+#print axioms C04.gen_eq_model_find_last_transition
+#print axioms C04.gen_eq_model_get_ttinfo
+#print axioms C04.gen_eq_model_fromutc
+#print axioms C04.gen_eq_model_utcoffset
+#print axioms C04.gen_eq_model_range_fromutc
+#print axioms C04.gen_eq_model_range_utcoffset
+#print axioms C04.roundtrip_gen
+#print axioms C04.gen_eq_model_tzinfo_fromutc
